@@ -106,6 +106,7 @@ func rdImpl(line string) string {
 		mc.fail(errors.New("connection reset by peer"))
 	}
 	go conn.ReadFrom()
+	defer mc.Close() // wakes a reader blocked in Read: it ends with the cancelled context
 	defer conn.VerifCancel()
 	var got []string
 	end := "hangs"
@@ -267,6 +268,18 @@ func init() {
 					}
 					emit(Case{Line: fmt.Sprintf("rx 0 0 b0:%s W:%s", hx(body[:k]), hx(body)), Kind: "channel-prefix"})
 				}
+				if i%3 == 0 {
+					// the same on a channel that has a complete response behind it, closed by a packet whose status
+					// carries the end-of-message bit alone or together with others (ATTNACK, EVENT)
+					first := respBytes(randomResponse(rng, true))
+					st := []int{1, 3, 9, 1}[i/3%4]
+					for k := 1; k < len(body); k++ {
+						if tier != "thorough" && len(body) > 80 && k%3 != i%3 {
+							continue
+						}
+						emit(Case{Line: fmt.Sprintf("rx 0 0 b%d:%s b0:%s W:%s", st, hx(first), hx(body[:k]), hx(body)), Kind: "channel-prefix-after-a-response"})
+					}
+				}
 			}
 			// C14: every byte offset × failure kinds. EOF inside a packet costs the 1 s read timeout:
 			// in the quick tier every offset is tried with reset and hang, EOF at the packet boundaries
@@ -297,13 +310,21 @@ func init() {
 			// channel level: the first bytes of a response (the rest never arrives). What is delivered is a
 			// prefix of what the complete response delivers, without any error and without a supplied DONE.
 			f := strings.Fields(line)
+			earlier := ""
+			if len(f) == 6 { // a complete earlier response in front: `b<status with EOM>:<hex>`
+				if stN, isBody := bodyTokStatus(strings.SplitN(f[3], ":", 2)[0]); !isBody || stN%2 != 1 {
+					return ""
+				}
+				earlier = "b1:" + strings.SplitN(f[3], ":", 2)[1] + " "
+				f = append(append([]string{}, f[:3]...), f[4:]...)
+			}
 			if len(f) != 5 || !strings.HasPrefix(f[3], "b0:") || !strings.HasPrefix(f[4], "W:") {
 				return ""
 			}
 			if out == "panic" || out == "timeout" {
 				return "an incomplete response neither crashes nor hangs the channel"
 			}
-			whole := rxWholeAnswerLine(0, 0, "b1:"+f[4][2:])
+			whole := rxWholeAnswerLine(0, 0, earlier+"b1:"+f[4][2:])
 			dOf := func(s string) (string, bool) {
 				i, j := strings.Index(s, "D=["), strings.Index(s, "] E=")
 				if i < 0 || j < i {
@@ -316,7 +337,14 @@ func init() {
 			if !ok1 || !ok2 {
 				return ""
 			}
-			if !strings.Contains(out, "] E=0 ") {
+			wantE := "] E=0 "
+			if earlier != "" { // the earlier response may have queued errors of its own (a rejected packet size)
+				alone := rxWholeAnswerLine(0, 0, strings.TrimSpace(earlier))
+				if i, j := strings.Index(alone, "] E="), strings.Index(alone, " H=["); i >= 0 && j > i {
+					wantE = alone[i:j] + " "
+				}
+			}
+			if !strings.Contains(out, wantE) {
 				return "never a package assembled from incomplete data: an incomplete response queues no error"
 			}
 			if dp != "" && !(dw == dp || strings.HasPrefix(dw, dp+" | ")) {
